@@ -1,23 +1,77 @@
-"""Regenerates MANIFEST.json from the table below (run with any python3)."""
+"""Regenerates MANIFEST.json (run with any python3).
+
+A property is claimed iff it is a key of CLAIMED below and its module exists.  The free-text of each claim is
+taken from the module itself (RULE / ASSUMPTIONS, read with ast - nothing is imported), so the manifest cannot
+drift away from what the check enumerates.
+"""
+import ast
 import json
 import os
 
 HERE = os.path.dirname(os.path.abspath(__file__))
 
-# id -> (category, technique, text, note)
-CHECKS = {
-    "C20": ("model_checking",
-            "explicit-state search over Packer call histories x exhaustive structure/alias-partition enumeration",
-            "Every container/leaf tree up to the node bound and every alias partition of its tensor slots is built as a "
-            "real object; on a fresh Packer every call history over 16 events is replayed (undeduplicated to depth 2-3, "
-            "then breadth-first to a fixpoint deduplicated on the getter-called flags) and compared event by event with "
-            "a reference model (slot list, alias classes, identity snapshot of the original and of earlier results). "
-            "Bounded-exhaustive: the right level for a small stateful object whose defects are order/alias dependent.",
-            "Bounds: <=4 nodes complete + alias-focused 5-node structures (quick); <=5 complete + alias-focused 6 "
-            "(thorough). Tensor shapes from 3 shapes by alias class. Trusted: CPython identity semantics, torch.equal."),
+# id -> (technique = the deciding method in a few words, why this level)
+CLAIMED = {
+    "C01": ("exhaustive enumeration of a finite configuration lattice of real solve() calls (operator kind x method "
+            "x E/M x batch pattern x dtype x option deviations x rhs kind), dense per-column reference on each",
+            "every structural combination of a stated finite lattice is executed on the implementation; defects of "
+            "solve live at combinations (method x E layout x batch shape x zero column) that sampling misses"),
+    "C02": ("exhaustive enumeration of parameter placement x forward method x backward method x E/M x "
+            "requires-grad subset x gradient order x reuse, dense autograd reference on each execution",
+            "bounded-exhaustive lattice over the real backward pass; reference = torch.linalg.solve built from the "
+            "same leaves, compared at first and second order"),
+    "C03": ("exhaustive enumeration of functional x method x function family x initial guess x tolerance pair x "
+            "iteration-limit deviations; the returned tensor is re-inserted into the user's function",
+            "all executions of a finite lattice; the oracle is the stopping test the caller asked for, evaluated on "
+            "the returned tensor itself"),
+    "C04": ("exhaustive enumeration of function family x forward method x backward solver x parameter placement x "
+            "gradient order, implicit-function-theorem reference (unrolled Newton steps) on each execution",
+            "bounded-exhaustive lattice over the real implicit backward pass"),
+    "C08": ("exhaustive enumeration of ODE family x forward method x backward method x time grid x requires-grad "
+            "subset x cotangent x order; matrix-exponential / closed-form sensitivities as reference",
+            "bounded-exhaustive lattice over the real adjoint integration"),
+    "C11": ("explicit-state exploration: every operator expression tree up to the leaf bound x every product, and "
+            "every instantiation order of small operator class hierarchies (class-level flag cache = explored state), "
+            "dense-matrix reference model on every step",
+            "the class-level capability cache is process-global state whose defects depend on the history of "
+            "instantiations; all histories up to the bound are replayed on fresh classes"),
+    "C12": ("call-programmed integrand (environment answers chosen by the harness) extracts the rule the "
+            "implementation applies, for every n x interval x limit form; all Legendre moments up to 2n-1",
+            "the space of n x interval x limit-form x output-kind is enumerated completely and the extracted rule "
+            "is compared with the Gauss-Legendre rule and its moment conditions"),
+    "C17": ("exhaustive enumeration of function kind x argument-index selection x product x operand batch x "
+            "parameter-change history x gradient order against torch.autograd.functional.jacobian/hessian",
+            "bounded-exhaustive lattice including the cached-graph reuse after parameter substitution"),
+    "C18": ("exhaustive enumeration of functional x {built-in, closed-form, wrapping} method callable x option "
+            "sets, plus the complete name x letter-case lattice of every dispatch site; spy callables log "
+            "arguments and grad mode",
+            "all dispatch sites x all registered names x case variants x unknown names are executed"),
+    "C19": ("explicit-state search over usage histories (forward / backward / graph-recording backward / drop) of "
+            "every functional scenario with the cyclic collector disabled; tensor census after every history",
+            "leaks depend on the order of use (forward-only, backward, double backward): all histories up to the "
+            "depth bound are replayed from scratch and the live-tensor census is the invariant"),
+    "C20": ("explicit-state search over Packer call histories x exhaustive structure/alias-partition enumeration",
+            "a small stateful object whose defects are order/alias dependent: every container/leaf tree up to the "
+            "node bound and every alias partition is built as a real object and every call history is replayed "
+            "against a reference model"),
 }
 
-NOT_BUILT_REASON = "no check registered yet: the bounded-exhaustive check designed in DESIGN.md §5 is not built/validated in this revision"
+NOT_BUILT_REASON = ("check exists in mc/props but is not registered in this revision: it still reports violations on "
+                    "the unchanged tree that have not been triaged into repaired defects / known findings / harness "
+                    "corrections, so claiming it would be unsound")
+
+
+def modinfo(pid):
+    path = os.path.join(HERE, "mc", "props", pid.lower() + ".py")
+    if not os.path.exists(path):
+        return None
+    tree = ast.parse(open(path).read())
+    d = {}
+    for node in tree.body:
+        if isinstance(node, ast.Assign) and len(node.targets) == 1 and isinstance(node.targets[0], ast.Name) \
+                and node.targets[0].id in ("RULE", "LEVEL", "ASSUMPTIONS"):
+            d[node.targets[0].id] = eval(compile(ast.Expression(node.value), path, "eval"), {})
+    return d
 
 
 def main():
@@ -26,8 +80,10 @@ def main():
     na = []
     for p in props:
         pid = p["id"]
-        if pid in CHECKS and os.path.exists(os.path.join(HERE, "mc", "props", pid.lower() + ".py")):
-            cat, tech, text, note = CHECKS[pid]
+        info = modinfo(pid)
+        if pid in CLAIMED and info:
+            tech, why = CLAIMED[pid]
+            rule = " ".join(info["RULE"].split())
             checks.append({
                 "property_id": pid,
                 "quick_cmd": "./check %s --tier quick" % pid,
@@ -35,8 +91,14 @@ def main():
                 "evidence_file": "evidence/%s.json" % pid,
                 "replay_cmd_template": "./check %s --replay {path}" % pid,
                 "engine": "mc",
-                "level_claimed": {"category": cat, "text": text, "design_ref": "DESIGN.md §5 %s" % pid},
-                "level_note": note,
+                "level_claimed": {
+                    "category": info["LEVEL"],
+                    "text": ("Bounded-exhaustive exploration of the real implementation (no sampling): %s.  "
+                             "Enumerated space and oracle: %s" % (why, rule[:1400])),
+                    "design_ref": "DESIGN.md §5 %s, §11" % pid},
+                "level_note": ("Both tiers enumerate their stated lattice completely (evidence.coverage.exhaustive); "
+                               "thorough = larger bounds. Assumed / trusted: "
+                               + " | ".join(" ".join(a.split()) for a in info.get("ASSUMPTIONS", []))[:1500]),
                 "technique": tech,
             })
         else:
